@@ -32,6 +32,20 @@ fn main() {
             let w: usize = args.get(4).and_then(|s| s.parse().ok()).unwrap_or(1);
             cli::cmd_selftest_digests(n, w)
         }
+        Some("runonly") => {
+            // execute one scenario and exit (used to confirm a watchdog trip in a fresh process)
+            let file = args.get(2).unwrap_or_else(|| usage());
+            let text = std::fs::read_to_string(file).unwrap_or_default();
+            match cfdp_verif::scenario::Scenario::from_text(&text) {
+                Ok(sc) => {
+                    let ctx = cfdp_verif::runner::Ctx::new(1);
+                    let _ = cfdp_verif::runner::run_one(&ctx, &sc);
+                    ctx.cleanup();
+                    0
+                }
+                Err(_) => 2,
+            }
+        }
         Some("corpus") => {
             let root = camino::Utf8PathBuf::from(format!("/dev/shm/cfdp-verif/{}/corpus", std::process::id()));
             for it in cfdp_verif::wirecorpus::build(&root, None) {
